@@ -262,6 +262,7 @@ Proof.
        do 3 eexists; cbn [categoric_data dc_levels dc_rows dc_labels dc_t];
        repeat split; try reflexivity; assumption).
   - (* PBox *)
+    match type of H with (if ?c then _ else _) = _ => destruct c; [discriminate H|] end.
     apply bind_ok in H as (cm' & Hcode & H). injection H as <-. cbn in Hc. injection Hc as ->.
     do 3 eexists. cbn [categoric_data dc_levels dc_rows dc_labels dc_t].
     repeat split; try reflexivity. destruct enc; assumption.
@@ -436,7 +437,7 @@ Proof.
     destruct (tc_response t), (tc_reference t);
       first [ injection H as <-; cbn [dc_levels]; assumption
             | apply bind_ok in H as (cm' & Hcode & H); injection H as <-; cbn [dc_levels]; assumption ].
-  - apply bind_ok in H as (cm' & Hcode & H). injection H as <-. cbn [dc_levels].
+  - match type of H with (if ?c then _ else _) = _ => destruct c; [discriminate H|] end. apply bind_ok in H as (cm' & Hcode & H). injection H as <-. cbn [dc_levels].
     destruct lv; [apply Hdecl; reflexivity|apply sort_levels_NoDup].
 Qed.
 
@@ -656,7 +657,7 @@ Proof.
   - cbn [categoric_data bind fst snd] in H.
     match type of H with (if ?c then _ else _) = _ => destruct c; [discriminate H|] end.
     apply bind_ok in H as (cm' & Hcode & H); injection H as <-. eexists; reflexivity.
-  - apply bind_ok in H as (cm' & Hcode & H). injection H as <-. eexists; reflexivity.
+  - match type of H with (if ?c then _ else _) = _ => destruct c; [discriminate H|] end. apply bind_ok in H as (cm' & Hcode & H). injection H as <-. eexists; reflexivity.
 Qed.
 
 Theorem plain_comp_wf t spans nrows dc :
@@ -697,3 +698,101 @@ Proof.
   - inversion Hplain; subst. eapply plain_comp_wf; eauto.
   - inversion Hplain; subst. apply IH; assumption.
 Qed.
+
+(* ------------------------------------------------------------------------------------------ *)
+(** * Duplicate levels are refused for boxes
+
+    [set_data_comp] refuses a box (C / T / S) whose level list repeats an entry, as
+    pd.Categorical(data, categories=levels) does ("Categorical categories must be unique"). *)
+
+(* the test the model performs *)
+Definition dupfree (l : list string) : bool :=
+  (List.length (nodup_by String.eqb l) =? List.length l)%nat.
+
+Lemma nodup_by_length_le {T} (eqb : T -> T -> bool) l :
+  List.length (nodup_by eqb l) <= List.length l.
+Proof.
+  induction l as [|x l IH]; simpl; [lia|]. destruct (existsb (eqb x) l); simpl; lia.
+Qed.
+
+Lemma nodup_by_id l : NoDup l -> nodup_by String.eqb l = l.
+Proof.
+  induction 1 as [|x l Hx _ IH]; simpl; [reflexivity|].
+  destruct (existsb (String.eqb x) l) eqn:E; [|f_equal; exact IH].
+  exfalso. apply existsb_exists in E as (y & Hy & Hxy). apply String.eqb_eq in Hxy. subst. contradiction.
+Qed.
+
+Theorem dupfree_iff l : dupfree l = true <-> NoDup l.
+Proof.
+  unfold dupfree. split.
+  - induction l as [|x l IH]; intros H; [constructor|]. simpl in H.
+    pose proof (nodup_by_length_le String.eqb l) as Hle.
+    destruct (existsb (String.eqb x) l) eqn:E.
+    + apply Nat.eqb_eq in H. lia.
+    + simpl in H. constructor; [|apply IH; exact H].
+      intros Hin. assert (existsb (String.eqb x) l = true); [|congruence].
+      apply existsb_exists. exists x. split; [assumption|apply String.eqb_refl].
+  - intros H. rewrite (nodup_by_id l H). apply Nat.eqb_refl.
+Qed.
+
+Corollary dupfree_false_iff l : dupfree l = false <-> ~ NoDup l.
+Proof.
+  rewrite <- dupfree_iff. destruct (dupfree l).
+  - split; [discriminate|]. intros H. exfalso. apply H. reflexivity.
+  - split; [intros _ H; discriminate H|reflexivity].
+Qed.
+
+Lemma NoDup_str_dec (l : list string) : NoDup l \/ ~ NoDup l.
+Proof. destruct (dupfree l) eqn:E; [left; apply dupfree_iff|right; apply dupfree_false_iff]; exact E. Qed.
+
+(* [set_data_comp] on a box, with the test named *)
+Lemma set_data_comp_box t spans nrows num d enc lv :
+  tc_kind t = KCategoric -> tc_value t = PBox num d enc lv ->
+  let enc' := match enc with Some e => e | None => Treatment None end in
+  let cats := match lv with Some l => l | None => sort_levels num (present d) end in
+  set_data_comp t spans nrows =
+  if negb (dupfree cats) then Err EValue else
+  do cm <- code enc' spans cats;
+  Ok (DC t cats (Some cm) (code_rows (cmatrix cm) (contrast_width cm) (level_codes cats d))
+         (Some (map (comp_label t) (clabels cm))) spans).
+Proof. intros Hk Hv. unfold set_data_comp. rewrite Hk, Hv. reflexivity. Qed.
+
+(** The levels of an accepted box are duplicate-free, whatever was passed as levels=. *)
+Theorem set_data_comp_box_levels_NoDup t spans nrows dc num d enc lv :
+  tc_kind t = KCategoric -> tc_value t = PBox num d enc lv ->
+  set_data_comp t spans nrows = Ok dc -> NoDup (dc_levels dc).
+Proof.
+  intros Hk Hv H. rewrite (set_data_comp_box t spans nrows num d enc lv Hk Hv) in H. cbv zeta in H.
+  destruct (dupfree _) eqn:E; [|discriminate H]. cbn [negb] in H.
+  apply bind_ok in H as (cm & _ & H). injection H as <-. cbn [dc_levels].
+  apply dupfree_iff. exact E.
+Qed.
+
+(** ... so only the declared order of an ORDERED plain column is left as a hypothesis. *)
+Theorem set_data_comp_levels_NoDup_box t spans nrows dc :
+  tc_kind t = KCategoric -> set_data_comp t spans nrows = Ok dc ->
+  (forall l xs, tc_value t = PStrs (Some l) xs -> NoDup l) ->
+  NoDup (dc_levels dc).
+Proof.
+  intros Hk H Hdecl.
+  destruct (tc_value t) as [isint xs|rows|o xs|? ?|?|?| |?|?|?|num d enc lv|? ?|? ? ?] eqn:Ev;
+    try (apply (set_data_comp_levels_NoDup t spans nrows dc Hk H); unfold declared_levels; rewrite Ev;
+         intros l' E'; discriminate E').
+  - apply (set_data_comp_levels_NoDup t spans nrows dc Hk H). unfold declared_levels. rewrite Ev.
+    intros l' E'. subst o. eapply Hdecl. reflexivity.
+  - eapply set_data_comp_box_levels_NoDup; eauto.
+Qed.
+
+(* a box needs no hypothesis at all *)
+Corollary set_data_comp_levels_NoDup_nostrs t spans nrows dc :
+  tc_kind t = KCategoric -> set_data_comp t spans nrows = Ok dc ->
+  (forall o xs, tc_value t <> PStrs (Some o) xs) ->
+  NoDup (dc_levels dc).
+Proof.
+  intros Hk H Hn. apply (set_data_comp_levels_NoDup_box t spans nrows dc Hk H).
+  intros l xs E. exfalso. exact (Hn l xs E).
+Qed.
+
+Print Assumptions dupfree_iff.
+Print Assumptions set_data_comp_box_levels_NoDup.
+Print Assumptions set_data_comp_levels_NoDup_box.
